@@ -532,18 +532,27 @@ func newLit(e ast.Expr) string {
 	return id.Name
 }
 
-func isErrNotNil(e ast.Expr) bool {
+// `<e> != nil` for an identifier e: returns its name
+func errVarNotNil(e ast.Expr) (string, bool) {
 	b, ok := e.(*ast.BinaryExpr)
 	if !ok || b.Op != token.NEQ {
-		return false
+		return "", false
 	}
 	x, ok1 := b.X.(*ast.Ident)
 	y, ok2 := b.Y.(*ast.Ident)
-	return ok1 && ok2 && x.Name == "err" && y.Name == "nil"
+	if ok1 && ok2 && y.Name == "nil" && x.Name != "nil" {
+		return x.Name, true
+	}
+	return "", false
 }
 
-// body is a single "return <something mentioning err>" (either wrapping style)
-func isReturnErr(b *ast.BlockStmt) bool {
+func isErrNotNil(e ast.Expr) bool {
+	_, ok := errVarNotNil(e)
+	return ok
+}
+
+// body is a single "return <the error variable>" or "return fmt.Errorf(..., <the error variable>)" (either wrapping style)
+func returnsErrVar(b *ast.BlockStmt, name string) bool {
 	if len(b.List) != 1 {
 		return false
 	}
@@ -553,19 +562,84 @@ func isReturnErr(b *ast.BlockStmt) bool {
 	}
 	found := false
 	ast.Inspect(r.Results[0], func(n ast.Node) bool {
-		if id, ok := n.(*ast.Ident); ok && id.Name == "err" {
+		if id, ok := n.(*ast.Ident); ok && id.Name == name {
 			found = true
 		}
 		return true
 	})
-	if id, ok := r.Results[0].(*ast.Ident); ok && id.Name == "err" {
+	if id, ok := r.Results[0].(*ast.Ident); ok && id.Name == name {
 		return true
 	}
-	// fmt.Errorf("... %w", "Name", err)
 	if call, ok := r.Results[0].(*ast.CallExpr); ok && exprStr(call.Fun) == "fmt.Errorf" && found {
 		return true
 	}
 	return false
+}
+
+// an if statement of the shape  if [init;] E != nil { return E | fmt.Errorf(.., E) }  - the name of E
+func errGuard(ifs *ast.IfStmt) (string, bool) {
+	name, ok := errVarNotNil(ifs.Cond)
+	if !ok || !returnsErrVar(ifs.Body, name) {
+		return "", false
+	}
+	return name, true
+}
+
+func isReturnErr(b *ast.BlockStmt) bool {
+	if len(b.List) != 1 {
+		return false
+	}
+	r, ok := b.List[0].(*ast.ReturnStmt)
+	return ok && len(r.Results) == 1
+}
+
+// Statement sequences in the sequential style are folded into the if-with-initialiser style the grammar is written in:
+//     x, e := RHS;  if e != nil { return ..e.. };  p.F = x        =>   if x, e := RHS; e != nil { return ..e.. } else { p.F = x }
+//     e := RHS;     if e != nil { return ..e.. }                  =>   if e := RHS; e != nil { return ..e.. }
+// (x must not be used anywhere else; e may be reused by later statements of the same shape).
+func normalizeBody(list []ast.Stmt) []ast.Stmt {
+	uses := func(name string, from []ast.Stmt) int {
+		n := 0
+		for _, s := range from {
+			ast.Inspect(s, func(x ast.Node) bool {
+				if id, ok := x.(*ast.Ident); ok && id.Name == name {
+					n++
+				}
+				return true
+			})
+		}
+		return n
+	}
+	var out []ast.Stmt
+	for i := 0; i < len(list); i++ {
+		as, ok := list[i].(*ast.AssignStmt)
+		if ok && len(as.Rhs) == 1 && i+1 < len(list) {
+			if ifs, ok := list[i+1].(*ast.IfStmt); ok && ifs.Init == nil && ifs.Else == nil {
+				if ev, ok := errGuard(ifs); ok {
+					if _, isCall := as.Rhs[0].(*ast.CallExpr); isCall {
+						// two results: value and error, followed by the assignment of the value to a field
+						if len(as.Lhs) == 2 && as.Tok == token.DEFINE && exprStr(as.Lhs[1]) == ev && i+2 < len(list) {
+							if as2, ok := list[i+2].(*ast.AssignStmt); ok && as2.Tok == token.ASSIGN && len(as2.Lhs) == 1 && len(as2.Rhs) == 1 &&
+								exprStr(as2.Rhs[0]) == exprStr(as.Lhs[0]) && uses(exprStr(as.Lhs[0]), list) == 2 {
+								out = append(out, &ast.IfStmt{If: as.Pos(), Init: as, Cond: ifs.Cond, Body: ifs.Body, Else: &ast.BlockStmt{Lbrace: as2.Pos(), List: []ast.Stmt{as2}}})
+								i += 2
+								continue
+							}
+						}
+						// one result: the error
+						if len(as.Lhs) == 1 && exprStr(as.Lhs[0]) == ev && (as.Tok == token.DEFINE || as.Tok == token.ASSIGN) {
+							init := &ast.AssignStmt{Lhs: as.Lhs, TokPos: as.TokPos, Tok: token.DEFINE, Rhs: as.Rhs}
+							out = append(out, &ast.IfStmt{If: as.Pos(), Init: init, Cond: ifs.Cond, Body: ifs.Body})
+							i++
+							continue
+						}
+					}
+				}
+			}
+		}
+		out = append(out, list[i])
+	}
+	return out
 }
 
 func (c *ctx) nilCheck(e ast.Expr, op token.Token) (int, bool) {
@@ -633,7 +707,11 @@ func (c *ctx) tableCall(e ast.Expr) (*Table, int, bool) {
 // if val, err := NewXByY(p.K); err != nil { return err } else { p.F = val }
 func (c *ctx) lookupStmt(s ast.Stmt) (tbl *Table, key, fld int, ok bool) {
 	ifs, isIf := s.(*ast.IfStmt)
-	if !isIf || ifs.Init == nil || ifs.Else == nil || !isErrNotNil(ifs.Cond) || !isReturnErr(ifs.Body) {
+	if !isIf || ifs.Init == nil || ifs.Else == nil {
+		return
+	}
+	evName, isGuard := errGuard(ifs)
+	if !isGuard {
 		return
 	}
 	as, isAs := ifs.Init.(*ast.AssignStmt)
@@ -642,7 +720,7 @@ func (c *ctx) lookupStmt(s ast.Stmt) (tbl *Table, key, fld int, ok bool) {
 	}
 	v, ok1 := as.Lhs[0].(*ast.Ident)
 	er, ok2 := as.Lhs[1].(*ast.Ident)
-	if !ok1 || !ok2 || er.Name != "err" {
+	if !ok1 || !ok2 || er.Name != evName {
 		return
 	}
 	t, k, isTbl := c.tableCall(as.Rhs[0])
@@ -695,7 +773,11 @@ func (c *ctx) noteCallDep(i int, pos token.Pos) {
 // if err := X; err != nil { return .. }   (also "if err = X; ...")
 func errIf(s ast.Stmt) (ast.Expr, bool) {
 	ifs, ok := s.(*ast.IfStmt)
-	if !ok || ifs.Init == nil || ifs.Else != nil || !isErrNotNil(ifs.Cond) || !isReturnErr(ifs.Body) {
+	if !ok || ifs.Init == nil || ifs.Else != nil {
+		return nil, false
+	}
+	ev, ok := errGuard(ifs)
+	if !ok {
 		return nil, false
 	}
 	as, ok := ifs.Init.(*ast.AssignStmt)
@@ -703,7 +785,7 @@ func errIf(s ast.Stmt) (ast.Expr, bool) {
 		return nil, false
 	}
 	id, ok := as.Lhs[0].(*ast.Ident)
-	if !ok || id.Name != "err" {
+	if !ok || id.Name != ev {
 		return nil, false
 	}
 	return as.Rhs[0], true
@@ -969,9 +1051,10 @@ func (c *ctx) decStmt(s ast.Stmt, last bool) []string {
 		}
 		fail(pos, "unsupported `if err := ...` in Decode: %s", exprStr(rhs))
 	}
-	if ifs, ok := s.(*ast.IfStmt); ok && isErrNotNil(ifs.Cond) && isReturnErr(ifs.Body) && ifs.Init != nil {
+	if ifs, ok := s.(*ast.IfStmt); ok && ifs.Init != nil && func() bool { _, g := errGuard(ifs); return g }() {
+		evName, _ := errGuard(ifs)
 		as, isAs := ifs.Init.(*ast.AssignStmt)
-		if isAs && len(as.Lhs) == 2 && len(as.Rhs) == 1 && exprStr(as.Lhs[1]) == "err" {
+		if isAs && len(as.Lhs) == 2 && len(as.Rhs) == 1 && exprStr(as.Lhs[1]) == evName {
 			name, targs, args, isCodec := c.codecCall(as.Rhs[0])
 			if isCodec {
 				// style 1: if val, err := R(); err != nil { return err } else { p.F = val }
@@ -1333,8 +1416,9 @@ func scanFuncs(p *pkgInfo) {
 							td.EncBad = true
 						}
 					}()
-					for i, s := range fd.Body.List {
-						td.Enc = append(td.Enc, c.encStmt(s, i == n-1)...)
+					body := normalizeBody(fd.Body.List)
+					for i, s := range body {
+						td.Enc = append(td.Enc, c.encStmt(s, i == len(body)-1)...)
 					}
 				}()
 			} else {
@@ -1361,8 +1445,9 @@ func scanFuncs(p *pkgInfo) {
 							td.DecBad = true
 						}
 					}()
-					for i, s := range fd.Body.List {
-						td.Dec = append(td.Dec, c.decStmt(s, i == n-1)...)
+					body := normalizeBody(fd.Body.List)
+					for i, s := range body {
+						td.Dec = append(td.Dec, c.decStmt(s, i == len(body)-1)...)
 					}
 				}()
 			}
